@@ -238,3 +238,71 @@ func TestTokensHandedOutAfterAReloadVerify(t *testing.T) {
 		vkit.S.NonTrivial("reload|"+strings.Join(history, "|"), map[string]any{"cached_tokens_and_reloads": true, "history": history})
 	})
 }
+
+// TestSignersWhoseSettingsReadAlikeKeepTheirTokensApart: two finalizers sign with the same key, published by two key
+// stores under different ids; key id, algorithm and name of the one, written one after another, read like those of the
+// other ("a" ES256 "ES256x" / "aES256" ES256 "x"). With a token cache in use and the same subject, every token still
+// names the key id of the store and the name of the signer it was asked from.
+func TestSignersWhoseSettingsReadAlikeKeepTheirTokensApart(t *testing.T) {
+	rapid.Check(t, func(t *rapid.T) {
+		dir, err := os.MkdirTemp("", "c16a-")
+		if err != nil {
+			t.Fatalf("harness: %v", err)
+		}
+		defer os.RemoveAll(dir)
+
+		key := rapid.SampledFrom([]string{"ecp256", "ecp384", "rsa2048", "ecp521"}).Draw(t, "key")
+		alg := expectedAlg[key]
+		kids := []string{"a", "a" + alg}
+		names := []string{alg + "x", "x"}
+
+		if rapid.Bool().Draw(t, "shiftBetweenAlgorithmAndName") {
+			// (the other boundary: the end of the algorithm's name cannot move, so the same key id and names which differ)
+			kids, names = []string{"a", "a"}, []string{"x", "x "}
+		}
+
+		conf := vkit.DefaultConf()
+		conf.Prototypes.Authenticators = []config.Mechanism{{ID: "anon", Type: "anonymous"}}
+
+		var rules []rulecfg.Rule
+
+		for i := 0; i < 2; i++ {
+			path := filepath.Join(dir, fmt.Sprintf("store%d.pem", i))
+			if err = os.WriteFile(path, renderKeyStore([]ksEntry{{Key: key, KeyID: kids[i], Format: "pkcs8"}}), 0o600); err != nil {
+				t.Fatalf("harness: %v", err)
+			}
+
+			id := fmt.Sprintf("jwt%d", i)
+			conf.Prototypes.Finalizers = append(conf.Prototypes.Finalizers, config.Mechanism{ID: id, Type: "jwt",
+				Config: config.MechanismConfig{"signer": map[string]any{"name": names[i], "key_store": map[string]any{"path": path}}, "ttl": "5m"}})
+			rules = append(rules, rulecfg.Rule{ID: id, Matcher: rulecfg.Matcher{Routes: []rulecfg.Route{{Path: "/" + id}}},
+				Execute: []config.MechanismConfig{{"authenticator": "anon"}, {"finalizer": id}}})
+		}
+
+		w, err := vkit.NewWorld(vkit.WorldOpts{Conf: conf, Cache: vkit.NewRecCache()})
+		if err != nil {
+			t.Fatalf("harness: %v", err)
+		}
+
+		if err = w.Load("src", rules...); err != nil {
+			t.Fatalf("harness: %v", err)
+		}
+
+		order := rapid.Permutation([]int{0, 1, 0, 1}).Draw(t, "order")
+
+		for _, i := range order {
+			ti, _, ierr := issueAt(w, fmt.Sprintf("/jwt%d", i))
+			if ierr != nil {
+				t.Fatalf("harness: %v", ierr)
+			}
+
+			if ti.Claims["iss"] != names[i] || ti.Header["kid"] != kids[i] {
+				t.Fatalf("the token handed out by the finalizer with signer name %q and key id %q names iss=%v kid=%v (requests in the order %v; the other signer: name %q, key id %q)",
+					names[i], kids[i], ti.Claims["iss"], ti.Header["kid"], order, names[1-i], kids[1-i])
+			}
+		}
+
+		vkit.S.Eval()
+		vkit.S.NonTrivial(fmt.Sprintf("alike|%s|%v|%v|%v", key, kids, names, order), map[string]any{"key": key, "key_ids": kids, "signer_names": names, "order": order})
+	})
+}
